@@ -876,4 +876,44 @@ def fstrCheck (body : List Nat) : Res :=
     | .error e => some e
     | .ok _ => none
 
+/-! ## the soft-keyword look-ahead (`soft_keywords.rs`, `Match | Case` arm) on one logical line
+
+  What `SoftKeywordTransformer::next` does when the head of a logical line is `match`/`case`: it
+  peeks at the following lexer results until `Newline`, the end, or — silently — the first lexical
+  `Err`, and keeps the keyword only if it saw a top-level `:` that is not the first token and does
+  not belong to a `lambda`.  -/
+
+inductive LTok where
+  | colon | lambda | op | cl | nl | other | err
+deriving DecidableEq, Repr
+
+/-- `nesting` is a signed counter in the Rust code (it is decremented without a check) -/
+def lookGo (nesting : Int) (first seenLambda seenColon : Bool) : List LTok → Bool
+  | [] => seenColon
+  | .err :: _ => seenColon          -- `while let Some(Ok(..)) = peek()` ends on an `Err`
+  | .nl :: _ => seenColon
+  | .lambda :: r => lookGo nesting false (if nesting = 0 then true else seenLambda) seenColon r
+  | .colon :: r =>
+    if nesting = 0 then
+      if seenLambda then lookGo nesting false false seenColon r
+      else lookGo nesting false seenLambda (if !first then true else seenColon) r
+    else lookGo nesting false seenLambda seenColon r
+  | .op :: r => lookGo (nesting + 1) false seenLambda seenColon r
+  | .cl :: r => lookGo (nesting - 1) false seenLambda seenColon r
+  | .other :: r => lookGo nesting false seenLambda seenColon r
+
+/-- `true`: the head is delivered as the keyword; `false`: as a NAME -/
+def headIsKeyword (line : List LTok) : Bool := lookGo 0 true false false line
+
+/-- the lexer's view of a line over `s : ( ) lambda $`: a closer at depth 0 and `$` are lexical errors -/
+def lineToks (depth : Nat) : List Nat → List LTok
+  | [] => []
+  | c :: r =>
+    if c = 58 then .colon :: lineToks depth r
+    else if c = 40 then .op :: lineToks (depth + 1) r
+    else if c = 41 then (if depth = 0 then [.err] else .cl :: lineToks (depth - 1) r)
+    else if c = 108 then .lambda :: lineToks depth r      -- `l` stands for ` lambda `
+    else if c = 36 then [.err]
+    else .other :: lineToks depth r
+
 end PV.C04
